@@ -34,6 +34,10 @@ type PropDef struct {
 	PanicIsViolation bool
 	// Race: the scenario is meant for a -race build; detector reports become violations.
 	Race bool
+	// SpinIsViolation: once the scenario has set World.SpinKey (the termination cause has been
+	// injected), running into the step limit means some goroutine never comes to rest: a violation
+	// of this property (elsewhere the step limit only makes the run inconclusive).
+	SpinIsViolation bool
 	// Mandatory reach probes for the thorough tier.
 	Mandatory []string
 }
@@ -69,6 +73,7 @@ type World struct {
 	Config       map[string]interface{}
 	States       map[string]bool
 	Inconclusive string
+	SpinKey      string // set once a termination cause has been injected (see PropDef.SpinIsViolation)
 	Nontrivial   bool
 	traceAll     bool
 	Tier         string
@@ -357,6 +362,17 @@ func RunOne(t *testing.T, prop *PropDef, seed uint64, index int, tier string, re
 		w.Viol = append(w.Viol, rv...)
 		w.Probes["race_reports_outside_library_ignored"] += ign
 	}
+	if prop.SpinIsViolation && w.SpinKey != "" && s.AbortReason() == "steplimit" {
+		var busy []string
+		for _, t := range res.Alive {
+			if !t.Harness {
+				busy = append(busy, t.Name+"@"+t.Site)
+			}
+		}
+		sort.Strings(busy)
+		w.Viol = append(w.Viol, Violation{Class: "livelock", Key: w.SpinKey, Detail: fmt.Sprintf("%d scheduling steps after the termination cause and still something runs (no task sleeps or blocks for good); library tasks alive: %s", s.Steps, strings.Join(busy, ", "))})
+		w.Inconclusive = ""
+	}
 	res.Viol = w.Viol
 	res.Inconclusive = w.Inconclusive
 	res.Abort = s.AbortReason()
@@ -368,7 +384,7 @@ func RunOne(t *testing.T, prop *PropDef, seed uint64, index int, tier string, re
 	res.Events, res.Config = w.Events, w.Config
 	res.Tapes = Tapes{W: w.W.Rec, F: w.F.Rec, S: w.S.Rec}
 	res.Foreign = s.Foreign()
-	if res.Abort != "" && res.Abort != "panic" && res.Inconclusive == "" {
+	if res.Abort != "" && res.Abort != "panic" && res.Inconclusive == "" && len(res.Viol) == 0 {
 		res.Inconclusive = res.Abort
 	}
 	return res
